@@ -148,6 +148,7 @@ theorem C04_source_size_fields_and_records (b : ByteArray) (pos lim : Nat) (hl :
   ⟨fun r => GoSrcP.readSizeInBlockHeader_absent fuel r, GoSrcP.readSizeInBlockHeader_spec b pos lim hl fuel hf,
    GoSrcP.readRecord_spec b pos lim hl fuel hf, fun f => (GoSrcP.verifyFlags_spec f).1⟩
 
-theorem C04_source_translation_complete : GoSrc.failures = [] := by decide
+-- (that every function on the translation list was translated is required once, in Props/C02 and Props/C03; a function of
+-- this property that fell out of the translator's subset would make the theorems above fail to elaborate)
 
 end Props.C04
